@@ -2,8 +2,8 @@ SPECIFICATION Spec
 CONSTANTS
   MaxH = 3
   Comps = {0, 1, 2}
-  Rels = {1}
-  Sized = {0}
+  Rels = {1, 2}
+  Sized = {0, 1}
   MaxSeq = 1
   MaxOpen = 0
   MaxRegs = 0
